@@ -349,7 +349,7 @@ def run_shard(spec, seed, tier):
     elif spec["kind"] == "fuzz":
         simple.fuzz_stage(res, "props.c15", seed, 8000)
     else:
-        hyp.search(res, st_case(), simple.make_body(mod), seed, 250 if tier == "quick" else 5000)
+        hyp.search(res, st_case(), simple.make_body(mod), seed, 1000 if tier == "quick" else 15000)
     return res
 
 
